@@ -147,6 +147,30 @@ func c07Eval(r *fw.Run, p *fw.Program) {
 		ru.Check(got[w], "option:"+w, pos, "gojq."+w+" is applied", "Eval no longer applies gojq."+w)
 	}
 
+	// (1b) the environment loader is the OS abstraction's Environ, and the OS the fq binary runs on returns os.Environ()
+	for _, call := range withCalls {
+		if call.Common().StaticCallee().Name() != "WithEnvironLoader" || len(call.Common().Args) != 1 {
+			continue
+		}
+		okSrc := false
+		var osIface *types.Named
+		if mc, isMC := call.Common().Args[0].(*ssa.MakeClosure); isMC && len(mc.Bindings) == 1 {
+			if bf, isF := mc.Fn.(*ssa.Function); isF && bf.Synthetic != "" && strings.HasPrefix(bf.Name(), "Environ$") {
+				if _, f := c07FieldLoad(mc.Bindings[0]); f != "" {
+					if n, isN := mc.Bindings[0].Type().(*types.Named); isN {
+						if _, isI := n.Underlying().(*types.Interface); isI {
+							osIface, okSrc = n, true
+						}
+					}
+				}
+			}
+		}
+		ru.Check(okSrc, "option:WithEnvironLoader:source", p.Rel(call.Pos()), "loader is the Environ method of the interpreter's OS", "gojq.WithEnvironLoader does not receive the Environ method of the interpreter's OS field: env/$ENV no longer show the process environment")
+		if osIface != nil {
+			c07EnvironImpls(ru, p, osIface)
+		}
+	}
+
 	// (2) registered functions: all four arguments come from the same record, field by field
 	for _, call := range withCalls {
 		name := call.Common().StaticCallee().Name()
@@ -257,7 +281,31 @@ func c07Eval(r *fw.Run, p *fw.Program) {
 	if withVars == nil {
 		ru.Undecided("variables", pos, "gojq.WithVariables call not found in Eval")
 	} else {
-		names := c07Appended(withVars.Common().Args[0])
+		// a helper that applies the option receives the names as a parameter: go up to the caller's value
+		namesV := withVars.Common().Args[0]
+		for up := 0; up < 2; up++ {
+			pa, isP := namesV.(*ssa.Parameter)
+			if !isP || pa.Parent() == fn {
+				break
+			}
+			var sites []ssa.CallInstruction
+			for _, f := range scope {
+				for _, c := range fw.CallsIn(f) {
+					if c.Common().StaticCallee() == pa.Parent() {
+						sites = append(sites, c)
+					}
+				}
+			}
+			if len(sites) != 1 {
+				break
+			}
+			for i, q := range pa.Parent().Params {
+				if q == pa && i < len(sites[0].Common().Args) {
+					namesV = sites[0].Common().Args[i]
+				}
+			}
+		}
+		names := c07Appended(namesV)
 		values := c07Appended(run.Common().Args[3])
 		ok := len(names) == 1 && len(values) == 1
 		msg := "variable names/values are not built by one append each"
@@ -394,4 +442,81 @@ func c07Eval(r *fw.Run, p *fw.Program) {
 		}
 	}
 	ru.Check(len(loaders) == 1 && loaders[0] == "initQuery", "init-modules", pos, "LoadInitModules returns [initQuery]", "LoadInitModules does not return exactly the parsed init query: ["+strings.Join(loaders, ";")+"]")
+}
+
+// c07EnvironImpls: every implementation of the OS abstraction linked into the fq command returns os.Environ().
+func c07EnvironImpls(ru *fw.Rule, p *fw.Program, osIface *types.Named) {
+	iface := osIface.Underlying().(*types.Interface)
+	// packages the fq command depends on
+	linked := map[string]bool{}
+	var walk func(path string)
+	walk = func(path string) {
+		pk := p.ByPath[path]
+		if pk == nil || linked[path] {
+			return
+		}
+		linked[path] = true
+		for ip := range pk.Imports {
+			if strings.HasPrefix(ip, fw.Mod) {
+				walk(ip)
+			}
+		}
+	}
+	for _, pk := range p.Roots {
+		if pk.Name == "main" && pk.PkgPath == fw.Mod {
+			walk(pk.PkgPath)
+		}
+	}
+	n := 0
+	for _, pk := range p.Roots {
+		if !linked[pk.PkgPath] {
+			continue
+		}
+		sc := pk.Types.Scope()
+		for _, nm := range sc.Names() {
+			tn, ok := sc.Lookup(nm).(*types.TypeName)
+			if !ok || tn.IsAlias() {
+				continue
+			}
+			named, ok := tn.Type().(*types.Named)
+			if !ok || named.TypeParams().Len() > 0 {
+				continue
+			}
+			if _, isI := named.Underlying().(*types.Interface); isI {
+				continue
+			}
+			var T types.Type = named
+			if !types.Implements(T, iface) {
+				T = types.NewPointer(named)
+				if !types.Implements(T, iface) {
+					continue
+				}
+			}
+			sel := types.NewMethodSet(T).Lookup(pk.Types, "Environ")
+			if sel == nil {
+				continue
+			}
+			mf := p.SSA.MethodValue(sel)
+			if mf == nil || mf.Blocks == nil {
+				continue
+			}
+			n++
+			ok2, nret := true, 0
+			fw.EachInstr(mf, func(ins ssa.Instruction) {
+				ret, isRet := ins.(*ssa.Return)
+				if !isRet {
+					return
+				}
+				nret++
+				call, isCall := ret.Results[0].(*ssa.Call)
+				if len(ret.Results) != 1 || !isCall || fw.CalleeName(call) != "os.Environ" {
+					ok2 = false
+				}
+			})
+			ru.Check(ok2 && nret > 0, "environ:"+shortType(named), p.Rel(mf.Pos()), "returns os.Environ()", "the OS implementation linked into the fq command does not return os.Environ() unchanged from Environ(): env/$ENV differ from the engine's")
+		}
+	}
+	if n == 0 {
+		ru.Undecided("environ", "", "no implementation of the OS abstraction found in the packages the fq command links")
+	}
 }
